@@ -64,16 +64,18 @@ M = "backend::decrypt::verif_kani::"
 KANI = [
     Harness(M + "c04_hash_write_full_stores_ciphertext_under_its_hash", functions=["<backend::decrypt::DecryptBackend as DecryptWriteBackend>::hash_write_full", "backend::decrypt::DecryptBackend::{encrypt_file, very_file, decrypt_file}"], expect_stubs=2, timeout=900),
     Harness(M + "c04_read_from_partial_requires_authentication", functions=["DecryptReadBackend::read_encrypted_from_partial (uncompressed)"], expect_stubs=1),
+    Harness(M + "c04_compressed_read_returns_exactly_the_recorded_length", functions=["DecryptReadBackend::read_encrypted_from_partial (compressed: length check after the decoder)"], expect_stubs=5),
     Harness(M + "c04_read_full_rejects_substituted_file", functions=["<backend::decrypt::DecryptBackend as DecryptReadBackend>::read_encrypted_full"], expect_stubs=2),
 ]
 KANI_UNWIND = 6
 KANI_ASSUMPTIONS = [
     "key = MockKey (ciphertext = marker byte + plaintext; decrypt fails without marker) standing for an arbitrary AEAD",
-    "crypto::hasher::hash stubbed by (first byte, last byte, length); zstd off (FFI unsupported by Kani)",
+    "crypto::hasher::hash stubbed by (first byte, last byte, length); zstd off on the write side (FFI unsupported by Kani)",
+    "zstd decoders (stream::decode_all, bulk::decompress) replaced by a mock returning ANY byte string of length 0..=3 or an error",
     "store = recording mock backend with symbolic per-operation failure",
 ]
 META = {"not_covered": [
     "the ciphers themselves (AES-CTR, Poly1305), scrypt / key files, passwords, key add/remove histories",
     "'no plaintext in storage' as a statement about all writers (only hash_write_full and the packer hand-over under C08)",
-    "compressed paths (zstd FFI)",
+    "compressing writers (zstd FFI); the decoder is an arbitrary function in the compressed-read harness",
 ]}
